@@ -282,6 +282,57 @@ fn ref_unplanned(stream: &[&Hdr], stride: Option<u64>) -> u64 {
     k
 }
 
+/// The planner case of Model/NoopPlan.v for an auto / auto-schedule call on this thread, without the
+/// expectation.  None unless the model's assumption holds: the full sidecar and the messages+runs
+/// sidecar are the projection of the truth stream (the checkpoint cache is free: absent, unparsable,
+/// or whatever lines it holds).
+fn plan_case_prefix(env: &Env, id: &str, stream: &[&Hdr], stride: Option<u64>, max_new: Option<u32>) -> Option<String> {
+    let stride = stride.unwrap_or(10_000);
+    if stride == 0 || stream.is_empty() {
+        return None;
+    }
+    let seqs_of = |file: CFile| -> Option<Vec<u64>> { parse_log(&std::fs::read(cache_path(env, id, file)).ok()?).ok().map(|h| h.iter().map(|x| x.seq).collect()) };
+    let truth: Vec<u64> = stream.iter().map(|h| h.seq).collect();
+    if seqs_of(CFile::Full)? != truth {
+        return None;
+    }
+    let mr_truth: Vec<u64> = stream.iter().filter(|h| h.code == 4 || h.code == 13).map(|h| h.seq).collect();
+    if seqs_of(CFile::Mr)? != mr_truth {
+        return None;
+    }
+    let pair = |to: u64, seq: u64| format!("({to}, {seq})");
+    let cps: Vec<String> = stream
+        .iter()
+        .filter_map(|h| match &h.ev.kind {
+            rip_kernel::EventKind::ContinuityCompactionCheckpointCreated { to_seq, .. } => Some(pair(*to_seq, h.seq)),
+            _ => None,
+        })
+        .collect();
+    let cache = match std::fs::read(cache_path(env, id, CFile::Comp)) {
+        Err(_) => "CAbsent".to_string(),
+        Ok(b) => match parse_log(&b) {
+            Err(_) => "CUnparsable".to_string(),
+            Ok(hs) => {
+                let mut ls = vec![];
+                for h in &hs {
+                    match &h.ev.kind {
+                        rip_kernel::EventKind::ContinuityCompactionCheckpointCreated { to_seq, .. } if h.sid == id => ls.push(pair(*to_seq, h.seq)),
+                        _ => return None, // a line that is a frame of another kind / thread: not a state of the model
+                    }
+                }
+                format!("(CLines [{}])", ls.join("; "))
+            }
+        },
+    };
+    let msgs: Vec<u64> = stream.iter().filter(|h| h.code == 4).map(|h| h.seq).collect();
+    Some(format!(
+        "cp_thread := {{| t_msgs := {}; t_cps := [{}] |}}; cp_cache := {cache}; cp_stride := {stride}; cp_max_new := {}",
+        coq_list_n(&msgs),
+        cps.join("; "),
+        max_new.unwrap_or(1).clamp(1, 32)
+    ))
+}
+
 /// State of the two derived sidecars of a thread, judged against the truth log (names a known open
 /// class when a no-op invocation appends because of it).
 fn derived_state(env: &Env, id: &str, stream: &[&Hdr]) -> Option<&'static str> {
@@ -318,6 +369,7 @@ struct Facts {
     ended: bool,
     unmodelled: bool,
     resp_silent: bool,
+    planned_seqs: Option<Vec<u64>>, // to_seq of the cut points the response lists as planned
 }
 impl Facts {
     fn coq(&self) -> String {
@@ -508,6 +560,7 @@ fn do_cap(env: &Env, hs: &[Hdr], cp: Cp, th: usize, p: &Params) -> Facts {
                 Err(_) => f.planned = 0,
                 Ok(r) => {
                     f.planned = r.planned.len() as u64;
+                    f.planned_seqs = Some(r.planned.iter().map(|c| c.to_seq).collect());
                     f.created = r.result.len() as u64;
                     f.ended = r.status == "completed";
                     f.resp_silent = r.status == "noop";
@@ -526,6 +579,7 @@ fn do_cap(env: &Env, hs: &[Hdr], cp: Cp, th: usize, p: &Params) -> Facts {
                 Err(_) => f.planned = 0,
                 Ok(r) => {
                     f.planned = r.planned.len() as u64;
+                    f.planned_seqs = Some(r.planned.iter().map(|c| c.to_seq).collect());
                     f.created = r.result.len() as u64;
                     f.execute = r.execute;
                     f.inflight = r.decision == "skipped_inflight";
@@ -553,6 +607,7 @@ struct Outcome {
     big_lines: Vec<usize>,
     hook_points: u64,
     parsed: Option<(Vec<u8>, Vec<Hdr>)>, // the log (bytes, frames) as it was after the last call
+    plan_cases: Vec<String>,             // CPlan terms (Model/NoopPlan.v): what the call planned vs the model planner
 }
 
 // ---------- monitor inside EventLog::append (rip_kernel::verif hook, points log.*) ----------
@@ -714,7 +769,17 @@ fn apply_call(env: &mut Env, call: &Call, out: &mut Outcome, dist: &mut Option<&
                     }
                 }
             }
+            let plan_prefix = if matches!(cp, Cp::Auto | Cp::AutoSchedule) && *th < created_ids(&hs).len() && out.plan_cases.len() < 4000 {
+                let id = thread_id(&hs, *th, p.pick);
+                let stream: Vec<&Hdr> = hs.iter().filter(|h| h.kind == rip_kernel::StreamKind::Continuity && h.sid == id).collect();
+                plan_case_prefix(env, &id, &stream, p.stride, p.max_new)
+            } else {
+                None
+            };
             let f = do_cap(env, &hs, *cp, *th, p);
+            if let (Some(pre), Some(seqs)) = (plan_prefix, &f.planned_seqs) {
+                out.plan_cases.push(format!("CPlan {{| {pre}; cp_expect := {} |}}", coq_list_n(seqs)));
+            }
             out.unmodelled |= f.unmodelled;
             silent_req = cp.read_only() || (matches!(cp, Cp::Auto | Cp::AutoSchedule) && (f.dry || f.stride0)) || f.resp_silent;
             name = format!("{cp:?}").split('(').next().unwrap().to_string();
@@ -858,7 +923,7 @@ fn apply_call(env: &mut Env, call: &Call, out: &mut Outcome, dist: &mut Option<&
 }
 
 fn new_outcome() -> Outcome {
-    Outcome { obs: vec![], coq_calls: vec![], violations: vec![], unmodelled: false, appended_by_silent: 0, oracle_checks: 0, final_frames: 0, big_lines: vec![], hook_points: 0, parsed: None }
+    Outcome { obs: vec![], coq_calls: vec![], violations: vec![], unmodelled: false, appended_by_silent: 0, oracle_checks: 0, final_frames: 0, big_lines: vec![], hook_points: 0, parsed: None, plan_cases: vec![] }
 }
 
 fn run_case(calls: &[Call], dist: Option<&mut RunResult>) -> Outcome {
@@ -1976,9 +2041,11 @@ fn main() {
     res.rule = "case = history of ContinuityStore capability calls (17 capabilities, 7 append kinds, every selector / summary / stride / limit / dry_run / execute / block_on_inflight combination, 40 unknown / malformed / path-shaped thread ids, frames of 8190..100000 bytes), sidecar faults (delete all caches, torn tail, empty, stale prefix) and restarts; 16 named store states (in-flight job, backlog > max_new, all checkpointed, caches deleted / corrupt, restart, children, > 256 KiB thread) x every parameter combination of the read-only / dry-run / no-op invocations on a known id (a fault state is re-created before every call) and on `../events`; 5 thread contents x 9 (fault, restart) combinations x 42 core invocations; events.jsonl is read before and after EVERY call and at every log.* hook point inside EventLog::append; non-trivial = at least one appending call, one silent call and one fault or restart; distinct by hash of the call list; plus byte-level cases (EventLog::append alone, lines of 200..250000 bytes, file growth at the hook points compared with the BufWriter model), a second O_APPEND handle race, router-level cases (percent-encoded ids through the real axum router) and a live case (session runs, thread posts, a pipes task through the router), oracle only".into();
     let n = if a.thorough() { 1500 } else { 110 };
     let mut r = Rng::new(a.seed);
-    let mut w = CaseWriter::new(&a.out, "Model.Frames Model.Log Model.ContStore Model.LogBytes Model.C02Cases", "check_case_c02x", "model_obs_c02x", 8);
+    let mut w = CaseWriter::new(&a.out, "Model.Frames Model.Log Model.ContStore Model.LogBytes Model.NoopPlan Model.C02Cases", "check_case_c02x", "model_obs_c02x", 8);
     let mut distinct = Distinct::default();
     install_hook();
+    let mut plan_seen: std::collections::HashSet<String> = Default::default();
+    let mut plan_terms: Vec<(String, String)> = vec![];
     let mut all: Vec<(String, Vec<Call>)> = sweep_cases(a.thorough());
     for i in 0..n {
         all.push((format!("random/{i}"), gen_case(&mut r, i % 8 == 7)));
@@ -2020,6 +2087,12 @@ fn main() {
                     };
                     push_violation(&mut res, i as i64, format!("{label}: {what}"), class, json!(shrunk.iter().map(call_json).collect::<Vec<_>>()));
                 }
+                for t in &o.plan_cases {
+                    if plan_seen.insert(t.clone()) && plan_terms.len() < 1500 {
+                        plan_terms.push((t.clone(), label.clone()));
+                    }
+                }
+                res.bump_by("planner_calls_compared_with_model_before_dedup", o.plan_cases.len() as u64);
                 if o.unmodelled {
                     res.bump("cases_with_failed_job_not_compared");
                 } else if !a.oracle_only() {
@@ -2045,6 +2118,20 @@ fn main() {
             break;
         }
     }
+    // planner cases (Model/NoopPlan.v): distinct (thread shape, checkpoint cache state, stride, max_new, answer)
+    if !a.oracle_only() {
+        w.flush();
+        w.per_file = 150;
+        for (t, label) in &plan_terms {
+            let id = w.push(t.clone());
+            if res.case_index.len() < 4000 {
+                res.case_index.insert(id.to_string(), json!({"kind": "planner", "from_history": label, "case": t.chars().take(600).collect::<String>()}));
+            }
+        }
+        w.flush();
+        w.per_file = 8;
+    }
+    res.bump_by("planner_cases_distinct", plan_terms.len() as u64);
     let base = res.evaluations as i64;
     let t_hist = std::time::Instant::now();
     log_level_cases(&a, &mut res, base, &mut w);
